@@ -32,6 +32,9 @@ type Controller struct {
 	byGoid  map[uint64]*thread
 	threads []*thread
 	trapped int
+	// YieldAfterUnlock adds a scheduling point right after every mutex release ("unlocked"), so that whatever a
+	// method still does after leaving its critical section can interleave with other threads. Set before Install.
+	YieldAfterUnlock bool
 }
 
 var current atomic.Pointer[Controller]
@@ -181,6 +184,16 @@ func NoYieldExit() {
 	if _, th := self(); th != nil {
 		th.noYield--
 	}
+}
+
+// AfterUnlock is called by the mutex shims after a release.
+func AfterUnlock() {
+	c, th := self()
+	if th == nil || c == nil || !c.YieldAfterUnlock || th.noYield > 0 {
+		return
+	}
+	Yield("unlocked")
+	Result("")
 }
 
 // WaitSettled blocks until no controlled goroutine is running.
